@@ -590,7 +590,7 @@ Lemma map_id_values {V} (m : map V) : List.map (fun kv => (fst kv, id (snd kv)))
 Proof. induction m as [|[k v] m IH]; simpl; [reflexivity | now rewrite IH]. Qed.
 
 Lemma g_lose_task_ws w f x : gt_ws (g_lose_task w f x) = gt_ws x.
-Proof. unfold g_lose_task. destruct (gt_state x); try reflexivity. destruct (gt_ws x) as [|r0 l] eqn:E; try reflexivity. destruct (N.eqb r0 w); simpl; congruence. Qed.
+Proof. unfold g_lose_task. destruct (gt_state x); try reflexivity. destruct (gt_ws x) as [|r0 l] eqn:E; [exact E|]. destruct (N.eqb r0 w); simpl; congruence. Qed.
 
 Lemma g_lose_task_waiting w f x :
   gt_state (g_lose_task w f x) = GWaiting ->
@@ -666,3 +666,369 @@ Proof.
     split; [apply (map_rel_map_r _ _ (g_lose_job w false) _ _ H); intros a b Hab; exact (Hjob a b Hab)|].
     repeat split; try assumption. intros k Hkk. rewrite Hk in Hkk. now apply A9.
 Qed.
+
+Lemma sim_connected rs g g' w alloc :
+  Rel rs g -> gstep g (EWorkerConnected w alloc) = Some g' ->
+  exists rs', rstep rs (EWorkerConnected w alloc) = Ok rs' /\ Rel rs' g'.
+Proof.
+  intros HR Hg. simpl in Hg. destruct (g_max_worker g <? w) eqn:Hlt; [|discriminate].
+  inversion Hg; subst g'. clear Hg. apply N.ltb_lt in Hlt.
+  destruct HR as (H & A1 & A2 & A3 & A4 & A5 & A6 & A7 & A8 & A9 & A10).
+  eexists. split; [reflexivity|]. unfold Rel, update_max_ids; simpl.
+  split.
+  - eapply map_rel_impl; [exact H|]. intros rj gj (Ho & Hs & Ht & Hwf & Hwi).
+    unfold job_rel. repeat (split; [assumption|]). intros t x Hl. destruct (Hwi t x Hl) as [Wa Wb].
+    split; [intros w0 Hw0; specialize (Wa w0 Hw0); lia|].
+    intros Hst. specialize (Wb Hst). destruct (gt_ws x) as [|r0 l] eqn:E; [exact I|].
+    simpl. intros [F|F]; [|contradiction]. subst. specialize (Wa r0 (or_introl eq_refl)). lia.
+  - rewrite A4, A5. repeat split; try assumption; try (simpl; lia).
+    intros w0 [<-|Hw0]; [lia|]. specialize (A8 w0 Hw0). lia.
+Qed.
+
+Lemma sim_restart rs g g' u :
+  Rel rs g -> gstep g (EServerStart u) = Some g' ->
+  exists rs', rstep rs (EServerStart u) = Ok rs' /\ Rel rs' g'.
+Proof.
+  intros HR Hg. simpl in Hg. destruct (match g_uid g with Some u' => u =? u' | None => true end); [|discriminate].
+  inversion Hg; subst g'. clear Hg.
+  rewrite (rstep_noop_ids rs g); [| assumption | simpl; tauto | simpl; tauto | simpl; tauto].
+  destruct HR as (H & A1 & A2 & A3 & A4 & A5 & A6 & A7 & A8 & A9 & A10).
+  eexists. split; [reflexivity|]. unfold Rel; simpl.
+  split.
+  - apply (map_rel_map_r _ _ g_restart_job _ _ H). intros rj gj (Ho & Hs & Ht & Hwf & Hwi).
+    unfold job_rel, g_restart_job. cbn [gj_open gj_submits gj_tasks].
+    split; [assumption|]. split; [assumption|]. split; [|split; [now apply job_wf_map|]].
+    + rewrite <- (map_id_values (rj_tasks rj)). apply tasks_rel_map; [assumption|].
+      intros t x Hl Hrel. replace (option_map id (lookup t (rj_tasks rj))) with (lookup t (rj_tasks rj)) by (now destruct (lookup t (rj_tasks rj))).
+      destruct (gt_state x) eqn:Hst;
+        try (assert (Hx : g_restart_task x = x) by (unfold g_restart_task; now rewrite Hst); rewrite Hx; exact Hrel).
+      unfold g_restart_task. rewrite Hst. unfold task_rel in *. simpl.
+      destruct (gt_last x); [|rewrite Hst in Hrel; destruct Hrel as [_ []]].
+      rewrite Hrel. unfold rstate_of; simpl. now rewrite Hst.
+    + intros t x'. rewrite lookup_map_values. destruct (lookup t (gj_tasks gj)) as [x|] eqn:Hl; simpl; [|discriminate].
+      intros E; inversion E; subst x'. destruct (Hwi t x Hl) as [Wa Wb].
+      unfold g_restart_task. destruct (gt_state x) eqn:Hst; split; simpl; try assumption; try (rewrite Hst; discriminate);
+        try (intros _; destruct (gt_ws x); [exact I | tauto]).
+  - assert (Hk : keys (List.map (fun kv : N * GJob => (fst kv, g_restart_job (snd kv))) (g_jobs g)) = keys (g_jobs g))
+      by (unfold keys; rewrite map_map; now apply map_ext).
+    repeat split; try assumption; try tauto. intros k Hkk. rewrite Hk in Hkk. now apply A9.
+Qed.
+
+Lemma sim_simple rs g g' e :
+  Rel rs g ->
+  match e with
+  | EWorkerOverview _ | EQueueCreated _ | EQueueRemoved _ | EAllocQueued _ _ | EAllocStarted _ _
+  | EAllocFinished _ _ | EServerStop => True
+  | _ => False
+  end ->
+  gstep g e = Some g' -> exists rs', rstep rs e = Ok rs' /\ Rel rs' g'.
+Proof.
+  intros HR He Hg. pose proof HR as HR0.
+  destruct HR as (H & A1 & A2 & A3 & A4 & A5 & A6 & A7 & A8 & A9 & A10).
+  destruct e; try contradiction; simpl in Hg.
+  - destruct (memN w (g_workers g)) eqn:Hw; [|discriminate]. inversion Hg; subst g'. apply memN_in in Hw.
+    rewrite (rstep_noop_ids rs g); [| assumption | simpl; tauto | | simpl; tauto].
+    2:{ simpl. intros k [<-|[]]. assumption. }
+    eexists. split; [reflexivity | assumption].
+  - destruct (g_max_queue g <? q) eqn:Hlt; [|discriminate]. inversion Hg; subst g'. apply N.ltb_lt in Hlt.
+    unfold rstep. simpl.
+    assert (Hm : mem q (rs_queues rs) = false).
+    { rewrite A6. unfold mem. destruct (lookup q (g_queues g)) eqn:E; [|reflexivity].
+      apply lookup_some_keys in E. apply A10 in E. lia. }
+    rewrite Hm. eexists. split; [reflexivity|]. unfold Rel; simpl. rewrite A6.
+    repeat split; try assumption; try (simpl; lia).
+    intros k Hk. apply in_keys_insert in Hk. destruct Hk as [->|Hk]; [lia|]. specialize (A10 k Hk). lia.
+  - destruct (mem q (g_queues g)) eqn:Hm; [|discriminate]. inversion Hg; subst g'.
+    assert (Hq : q <= g_max_queue g).
+    { apply A10. unfold mem in Hm. destruct (lookup q (g_queues g)) eqn:E; [|discriminate]. now apply lookup_some_keys in E. }
+    rewrite (rstep_noop_ids rs g); [| assumption | simpl; tauto | simpl; tauto |].
+    2:{ simpl. intros k [<-|[]]. assumption. }
+    eexists. split; [reflexivity|]. unfold Rel; simpl. rewrite A6.
+    repeat split; try assumption. intros k Hk. apply in_keys_remove in Hk. now apply A10.
+  - destruct (mem q (g_queues g)) eqn:Hm; [|discriminate]. inversion Hg; subst g'.
+    assert (Hq : q <= g_max_queue g).
+    { apply A10. unfold mem in Hm. destruct (lookup q (g_queues g)) eqn:E; [|discriminate]. now apply lookup_some_keys in E. }
+    rewrite (rstep_noop_ids rs g); [| assumption | simpl; tauto | simpl; tauto |].
+    2:{ simpl. intros k [<-|[]]. assumption. }
+    eexists. split; [reflexivity|]. unfold Rel; simpl. rewrite A5.
+    repeat split; try assumption.
+  - destruct (q <=? g_max_queue g) eqn:Hq; [|discriminate]. inversion Hg; subst g'. apply N.leb_le in Hq.
+    rewrite (rstep_noop_ids rs g); [| assumption | simpl; tauto | simpl; tauto |].
+    2:{ simpl. intros k [<-|[]]. assumption. }
+    eexists. split; [reflexivity | assumption].
+  - destruct (q <=? g_max_queue g) eqn:Hq; [|discriminate]. inversion Hg; subst g'. apply N.leb_le in Hq.
+    rewrite (rstep_noop_ids rs g); [| assumption | simpl; tauto | simpl; tauto |].
+    2:{ simpl. intros k [<-|[]]. assumption. }
+    eexists. split; [reflexivity | assumption].
+  - inversion Hg; subst g'.
+    rewrite (rstep_noop_ids rs g); [| assumption | simpl; tauto | simpl; tauto | simpl; tauto].
+    eexists. split; [reflexivity | assumption].
+Qed.
+
+Lemma sim_batches rs g g' e :
+  Rel rs g ->
+  match e with ETasksCanceled _ | ETasksAborted _ => True | _ => False end ->
+  gstep g e = Some g' -> exists rs', rstep rs e = Ok rs' /\ Rel rs' g'.
+Proof.
+  intros HR He Hg. destruct e; try contradiction; simpl in Hg.
+  - destruct (sim_term_fold GCanceled ids0 rs g g' HR eq_refl Hg) as (HR' & Hall).
+    rewrite (rstep_noop_ids rs g); [| assumption | exact Hall | simpl; tauto | simpl; tauto].
+    eexists. split; [reflexivity | exact HR'].
+  - destruct (sim_term_fold GAborted ids0 rs g g' HR eq_refl Hg) as (HR' & Hall).
+    rewrite (rstep_noop_ids rs g); [| assumption | exact Hall | simpl; tauto | simpl; tauto].
+    eexists. split; [reflexivity | exact HR'].
+Qed.
+
+(** One record. *)
+Lemma step_sim rs g g' e :
+  Rel rs g -> gstep g e = Some g' -> exists rs', rstep rs e = Ok rs' /\ Rel rs' g'.
+Proof.
+  intros HR Hg. destruct e eqn:E.
+  1-5: (eapply sim_job_events; [eassumption | exact I | eassumption]).
+  - eapply sim_started; eassumption.
+  - eapply sim_finished; eassumption.
+  - eapply sim_failed; eassumption.
+  - eapply sim_batches; [eassumption | exact I | eassumption].
+  - eapply sim_batches; [eassumption | exact I | eassumption].
+  - eapply sim_connected; eassumption.
+  - eapply sim_lost; eassumption.
+  - eapply sim_simple; [eassumption | exact I | eassumption].
+  - eapply sim_simple; [eassumption | exact I | eassumption].
+  - eapply sim_simple; [eassumption | exact I | eassumption].
+  - eapply sim_simple; [eassumption | exact I | eassumption].
+  - eapply sim_simple; [eassumption | exact I | eassumption].
+  - eapply sim_simple; [eassumption | exact I | eassumption].
+  - eapply sim_restart; eassumption.
+  - eapply sim_simple; [eassumption | exact I | eassumption].
+Qed.
+
+(** The whole journal. *)
+Lemma load_sim evs : forall rs g g',
+  Rel rs g -> grun g evs = Some g' -> exists rs', load rs evs = Ok rs' /\ Rel rs' g'.
+Proof.
+  induction evs as [|e evs IH]; intros rs g g' HR Hg; simpl in *.
+  - inversion Hg; subst. eauto.
+  - destruct (gstep g e) as [g1|] eqn:E; [|discriminate].
+    destruct (step_sim rs g g1 e HR E) as (rs1 & Hs & HR1). rewrite Hs. eapply IH; eassumption.
+Qed.
+
+(** * [finish]: restoring the jobs from a related restorer state yields [abs] *)
+
+Definition batches_of (jid : N) (rt : map RTask) (subs : list (list TaskSpec)) : list Batch :=
+  flat_map (fun sub => match retain_tasks rt sub with [] => [] | nt => [mkB jid nt (batch_adjust rt nt)] end) subs.
+
+Lemma restore_submits_spec jid rt subs : forall tasks out n,
+  restore_submits jid rt (tasks, out, n) subs =
+  match attach_subs tasks subs with
+  | Some t' => Ok (t', out ++ batches_of jid rt subs, n + N.of_nat (length subs))
+  | None => Disabled
+  end.
+Proof.
+  induction subs as [|sub subs IH]; intros tasks out n; simpl.
+  - rewrite app_nil_r. f_equal. f_equal. lia.
+  - destruct (validate tasks sub); simpl; [|reflexivity]. rewrite IH.
+    destruct (attach_subs (attach tasks sub) subs); [|reflexivity].
+    f_equal. f_equal; [f_equal|lia].
+    destruct (retain_tasks rt sub); simpl; [reflexivity | now rewrite <- app_assoc].
+Qed.
+
+Definition adj_of (rt : map RTask) (t : N) : option (N * N) :=
+  match lookup t rt with Some r => adjust_of r | None => None end.
+
+Lemma lookup_batch_adjust_gen rt nt : forall acc t,
+  lookup t (fold_left (fun a t => match lookup (bt_id t) rt with
+                        | Some x => match adjust_of x with Some v => insert (bt_id t) v a | None => a end
+                        | None => a
+                        end) nt acc) =
+  if memN t (List.map bt_id nt)
+  then match adj_of rt t with Some v => Some v | None => lookup t acc end
+  else lookup t acc.
+Proof.
+  induction nt as [|a nt IH]; intros acc t; simpl; [reflexivity|].
+  rewrite IH. unfold adj_of. destruct (N.eqb t (bt_id a)) eqn:E; simpl.
+  - apply N.eqb_eq in E. subst t.
+    destruct (lookup (bt_id a) rt) as [x|]; [|now destruct (memN (bt_id a) (List.map bt_id nt))].
+    destruct (adjust_of x) as [v|]; [|now destruct (memN (bt_id a) (List.map bt_id nt))].
+    rewrite lookup_insert_eq. now destruct (memN (bt_id a) (List.map bt_id nt)).
+  - assert (Hl : forall v, lookup t (insert (bt_id a) v acc) = lookup t acc)
+      by (intros v; apply lookup_insert_neq; apply N.eqb_neq; exact E).
+    destruct (lookup (bt_id a) rt) as [x|]; [|reflexivity].
+    destruct (adjust_of x) as [v|]; [|reflexivity]. now rewrite Hl.
+Qed.
+
+Lemma batch_view_adjust jid rt nt :
+  batch_view (mkB jid nt (batch_adjust rt nt)) = (jid, List.map (fun t => (bt_id t, bt_deps t, adj_of rt (bt_id t))) nt).
+Proof.
+  unfold batch_view; simpl. f_equal. apply map_ext_in. intros t Hin. f_equal.
+  unfold batch_adjust. rewrite lookup_batch_adjust_gen. simpl.
+  assert (Hm : memN (bt_id t) (List.map bt_id nt) = true) by (apply memN_in; now apply in_map).
+  rewrite Hm. now destruct (adj_of rt (bt_id t)).
+Qed.
+
+Section JobFinish.
+  Variables (rt : map RTask) (gt : map GTask).
+  Hypothesis Hrel : tasks_rel rt gt.
+
+  Lemma completed_terminal t : is_task_completed rt t = g_task_terminal gt t.
+  Proof.
+    unfold is_task_completed, g_task_terminal. specialize (Hrel t).
+    destruct (lookup t gt) as [x|]; [|now rewrite Hrel].
+    unfold task_rel in Hrel. destruct (gt_last x).
+    - rewrite Hrel. simpl. unfold rstate_of. now destruct (gt_state x).
+    - destruct Hrel as [_ H]. destruct (gt_state x); try contradiction; rewrite H; reflexivity.
+  Qed.
+
+  Lemma adj_abs t : adj_of rt t = abs_adjust gt t.
+  Proof.
+    unfold adj_of, abs_adjust. specialize (Hrel t).
+    destruct (lookup t gt) as [x|]; [|now rewrite Hrel].
+    unfold task_rel in Hrel. destruct (gt_last x).
+    - rewrite Hrel. unfold adjust_of; simpl. now rewrite Bool.orb_true_r.
+    - destruct Hrel as [Hc H]. rewrite Hc. simpl.
+      destruct (gt_state x); try contradiction; rewrite H; reflexivity.
+  Qed.
+
+  Lemma retain_abs sub :
+    List.map (fun t => (bt_id t, bt_deps t, adj_of rt (bt_id t))) (retain_tasks rt sub) = abs_batch gt sub.
+  Proof.
+    unfold retain_tasks, abs_batch. induction sub as [|ts sub IH]; simpl; [reflexivity|].
+    rewrite completed_terminal. destruct (g_task_terminal gt (ts_id ts)); simpl; [exact IH|].
+    rewrite IH, adj_abs. f_equal. f_equal. f_equal. apply filter_ext. intros d. now rewrite completed_terminal.
+  Qed.
+
+  Lemma batches_abs jid subs :
+    List.map batch_view (batches_of jid rt subs) =
+    flat_map (fun sub => match abs_batch gt sub with [] => [] | b => [(jid, b)] end) subs.
+  Proof.
+    unfold batches_of. induction subs as [|sub subs IH]; simpl; [reflexivity|].
+    rewrite map_app, IH. f_equal. rewrite <- retain_abs.
+    destruct (retain_tasks rt sub) as [|a l] eqn:E; [reflexivity|].
+    cbn [List.map]. rewrite batch_view_adjust. reflexivity.
+  Qed.
+
+  Lemma elem_state k x :
+    task_rel (lookup k rt) x ->
+    match lookup k rt with
+    | Some r => if completed (rt_state r) then (k, rt_state r) else (k, TWaiting)
+    | None => (k, TWaiting)
+    end = (k, gclass (gt_state x))
+    /\ forall c, match lookup k rt with Some r => bump_counter c (rt_state r) | None => c end
+                 = bump_counter c (gclass (gt_state x)).
+  Proof.
+    unfold task_rel. destruct (gt_last x).
+    - intros ->. simpl. unfold rstate_of. destruct (gt_state x); simpl; split; reflexivity.
+    - intros [_ H]. destruct (gt_state x); try contradiction; rewrite H; simpl; split; reflexivity.
+  Qed.
+
+  Lemma loops_abs (l : map GTask) :
+    Forall (fun kv => task_rel (lookup (fst kv) rt) (snd kv)) l ->
+    loop_states rt (waiting_map (keys l)) = List.map (fun tv => (fst tv, gclass (gt_state (snd tv)))) l
+    /\ forall c, loop_counters rt (waiting_map (keys l)) c
+                 = fold_left (fun c kv => bump_counter c (gclass (gt_state (snd kv)))) l c.
+  Proof.
+    induction 1 as [|[k x] l Hx _ IH]; simpl; [split; reflexivity|].
+    destruct (elem_state k x Hx) as [E1 E2]. destruct IH as [I1 I2]. split.
+    - unfold loop_states in *. simpl. rewrite I1. f_equal.
+      destruct (lookup k rt) as [r|]; [|exact E1]. destruct (completed (rt_state r)); exact E1.
+    - intros c. unfold loop_counters in *. simpl. rewrite E2. apply I2.
+  Qed.
+End JobFinish.
+
+Lemma restore_job_abs ws mw jid rj gj :
+  job_rel ws mw rj gj ->
+  exists bs, restore_job jid rj = Ok (abs_job (jid, gj), bs)
+             /\ List.map batch_view bs = abs_batches (jid, gj).
+Proof.
+  intros (Ho & Hs & Ht & (Hnd & Hat) & _). unfold restore_job.
+  rewrite restore_submits_spec, Hs, Hat. eexists. split; [|simpl; apply (batches_abs _ _ Ht)].
+  assert (HF : Forall (fun kv => task_rel (lookup (fst kv) (rj_tasks rj)) (snd kv)) (gj_tasks gj)).
+  { apply Forall_forall. intros [k x] Hin. simpl. pose proof (in_lookup k x _ Hnd Hin) as Hl.
+    specialize (Ht k). now rewrite Hl in Ht. }
+  destruct (loops_abs _ (gj_tasks gj) HF) as [L1 L2].
+  unfold abs_job, abs_counters. rewrite L1, L2, Ho. simpl. reflexivity.
+Qed.
+
+Lemma restore_jobs_abs ws mw rjs gjs :
+  map_rel (job_rel ws mw) rjs gjs ->
+  exists bs, restore_jobs rjs = Ok (List.map abs_job gjs, bs)
+             /\ List.map batch_view bs = flat_map abs_batches gjs.
+Proof.
+  induction 1 as [|[j rj] [j' gj] l1 l2 [Hk Hj] _ IH]; simpl in *.
+  - exists []. split; reflexivity.
+  - subst j'. destruct (restore_job_abs ws mw j rj gj Hj) as (bs & E & Hb). rewrite E.
+    destruct IH as (bss & E' & Hb'). rewrite E'. exists (bs ++ bss). split; [reflexivity|].
+    rewrite map_app, Hb, Hb'. reflexivity.
+Qed.
+
+(** ** C10: the two theorems *)
+
+Theorem restore_refines : forall evs g,
+  grun g0 evs = Some g -> exists r, restore evs = Ok r /\ view r = abs g.
+Proof.
+  intros evs g Hg. destruct (load_sim evs rs0 g0 g Rel0 Hg) as (rs & Hl & HR).
+  unfold restore. rewrite Hl. unfold finish.
+  destruct HR as (H & A1 & A2 & A3 & A4 & A5 & A6 & A7 & _).
+  destruct (restore_jobs_abs _ _ _ _ H) as (bs & E & Hb). rewrite E.
+  eexists. split; [reflexivity|]. unfold view, abs; simpl.
+  rewrite Hb, A1, A2, A3, A4, A6, A7. reflexivity.
+Qed.
+
+Theorem restore_total : forall evs k g,
+  grun g0 evs = Some g -> exists r, restore (firstn k evs) = Ok r.
+Proof.
+  intros evs k g Hg.
+  assert (Hp : exists g', grun g0 (firstn k evs) = Some g').
+  { clear - Hg. revert k g Hg. generalize g0. induction evs as [|e evs IH]; intros s k g Hg; destruct k; simpl in *; eauto.
+    destruct (gstep s e) as [s1|]; [|discriminate]. eapply IH; eassumption. }
+  destruct Hp as [g' Hg']. destruct (restore_refines _ _ Hg') as (r & Hr & _). eauto.
+Qed.
+
+(** The counters of a restored job never exceed its task count: [n_waiting_tasks] cannot underflow. *)
+Lemma c_sum_bump c s : c_sum (bump_counter c s) <= c_sum c + 1.
+Proof. destruct c, s; unfold c_sum; simpl; lia. Qed.
+
+Lemma c_sum_fold (l : map GTask) : forall c,
+  c_sum (fold_left (fun c kv => bump_counter c (gclass (gt_state (snd kv)))) l c) <= c_sum c + N.of_nat (length l).
+Proof.
+  induction l as [|kv l IH]; intros c; simpl length; cbn [fold_left]; [lia|].
+  specialize (IH (bump_counter c (gclass (gt_state (snd kv))))).
+  pose proof (c_sum_bump c (gclass (gt_state (snd kv)))). lia.
+Qed.
+
+Theorem restore_counters_safe : forall evs g r,
+  grun g0 evs = Some g -> restore evs = Ok r ->
+  forall j, In j (r_jobs r) -> exists n, n_waiting j = Ok n.
+Proof.
+  intros evs g r Hg Hr j Hin. destruct (restore_refines evs g Hg) as (r' & Hr' & Hv).
+  rewrite Hr in Hr'. inversion Hr'; subst r'. clear Hr'.
+  assert (Hj : r_jobs r = List.map abs_job (g_jobs g)) by (unfold view, abs in Hv; now inversion Hv).
+  rewrite Hj in Hin. apply in_map_iff in Hin. destruct Hin as [[jid gj] [<- _]].
+  unfold n_waiting, abs_job, n_tasks; simpl. rewrite map_length.
+  pose proof (c_sum_fold (gj_tasks gj) c0) as Hc. unfold abs_counters.
+  change (c_sum c0) with 0 in Hc.
+  destruct (c_sum _ <=? N.of_nat (length (gj_tasks gj))) eqn:E; [eauto|].
+  apply N.leb_gt in E. lia.
+Qed.
+
+(** Non-vacuity: a history with two submits into an open job, a failure before start, a crash of a
+    running task with its worker, a restart of the task, a cancel and a server restart is
+    producible, and [restore] reproduces its abstraction. *)
+Definition example_journal : list Event :=
+  [ EServerStart 7; EJobOpen 1;
+    ESubmit 1 false [mkTS 0 (CMax 5) []; mkTS 1 (CMax 5) []];
+    EWorkerConnected 1 None; ETaskStarted 1 0 0 [1]; ETaskFinished 1 0;
+    ESubmit 1 false [mkTS 2 CNever [0]; mkTS 3 CUnlimited [2]];
+    ETaskFailed 1 1;
+    ETaskStarted 1 2 0 [1]; EWorkerLost 1 RConnLost;
+    EWorkerConnected 2 None; ETaskStarted 1 2 1 [2];
+    ESubmit 2 true [mkTS 0 (CMax 1) []]; EJobCancel 2; ETasksCanceled [(2, 0)]; EJobCompleted 2;
+    EServerStart 7 ].
+
+Example example_producible : exists g, grun g0 example_journal = Some g /\ length (g_jobs g) = 1%nat.
+Proof. eexists. split; vm_compute; reflexivity. Qed.
+
+Example example_restored :
+  exists r, restore example_journal = Ok r
+            /\ List.map batch_view (r_batches r) = [(1, [(2, [], Some (2, 1)); (3, [2], None)])]
+            /\ List.map sj_counters (r_jobs r) = [mkC 0 1 1 0 0].
+Proof. eexists. split; [vm_compute; reflexivity | split; reflexivity]. Qed.
